@@ -348,7 +348,7 @@ def deleteCols {α} (column count : Int) (cols : List (ColD α)) : List (ColD α
   let cs := column
   let ce := column + count - 1
   cols.filterMap fun c =>
-    if cs < c.min then
+    if cs ≤ c.min then                                                                    -- (F27b fix: `<=`)
       if ce < c.min then some { c with min := c.min - count, max := c.max - count }      -- A
       else if ce < c.max then some { c with min := cs, max := c.max - count }            -- B
       else none                                                                           -- C
